@@ -31,6 +31,32 @@ def owner_path(prog, body):
     return owner_fn(prog, body).path
 
 
+def owner_paths(prog, body, _depth=0):
+    """Owners for who-may-call / who-may-construct rules. Normally the enclosing function. A function that does not exist on
+    the pinned tree and survived normalisation (it is used as a function *value*, e.g. `.map(Self::wrap)`, so it cannot be
+    inlined) acts on behalf of the functions that use it: its owners are theirs."""
+    own = owner_fn(prog, body)
+    if _depth > 3 or own.path in _pinned_set() or own.crate not in ("anemo", "anemo_tower", "anemo_build"):
+        return [own.path]
+    users = set()
+    for c in prog.callers_of(own.path):
+        users.add(c.body.path)
+    for b_, _bb in prog.fn_refs(own.path):
+        users.add(b_.path)
+    users.discard(own.path)
+    if not users:
+        return [own.path]
+    out = []
+    for u in sorted(users):
+        ub = prog.body(u)
+        if ub is None:
+            continue
+        for x in owner_paths(prog, ub, _depth + 1):
+            if x not in out:
+                out.append(x)
+    return out or [own.path]
+
+
 # ---------------------------------------------------------------------------
 # R-CALLERS
 
@@ -44,15 +70,16 @@ def check_callers(ob, prog, spec, allowed, crates=None, floor=None, exact=None, 
     n = 0
     for c in sites:
         own = owner_path(prog, c.body)
+        owns = owner_paths(prog, c.body)
         n += 1
-        ob.require(name_matches(own, allowed) or name_matches(c.body.path, allowed),
+        ob.require(all(name_matches(o_, allowed) for o_ in owns) or name_matches(c.body.path, allowed),
                    f"{key or what}/caller/{own}",
                    f"{what} is called from {c.body.path}, which is not in the allowed set {sorted(allowed) if not isinstance(allowed, str) else allowed}",
                    construct=c.body.path, where=c.body.loc(c.bb))
     for b, bb in refs:
         own = owner_path(prog, b)
         n += 1
-        ob.require(name_matches(own, allowed) or name_matches(b.path, allowed),
+        ob.require(all(name_matches(o_, allowed) for o_ in owner_paths(prog, b)) or name_matches(b.path, allowed),
                    f"{key or what}/fnref/{own}",
                    f"{what} is used as a function value in {b.path}, which is not in the allowed set",
                    construct=b.path, where=b.loc(bb))
@@ -140,7 +167,7 @@ def check_field_writers(ob, prog, adt, field, allowed, crates=None, floor=None, 
     acc = [a for a in field_accesses(prog, adt, field, crates) if a[2] in kinds and not a[0].is_cleanup(a[1])]
     for b, bb, kind, _ in acc:
         own = owner_path(prog, b)
-        ob.require(name_matches(own, allowed), f"{adt}.{field}/{kind}/{own}",
+        ob.require(all(name_matches(o_, allowed) for o_ in owner_paths(prog, b)) if allowed else False, f"{adt}.{field}/{kind}/{own}",
                    f"field {adt}.{field} is {kind}-accessed in {b.path}, outside the allowed writers",
                    construct=b.path, where=b.loc(bb))
     if floor is not None:
@@ -170,7 +197,7 @@ def check_constructed_only_in(ob, prog, adt, allowed, crates=None, floor=1):
     sites = aggregates_of(prog, adt, crates)
     for b, bb, _ in sites:
         own = owner_path(prog, b)
-        ob.require(name_matches(own, allowed) or name_matches(b.path, allowed), f"{adt}/constructed-in/{own}",
+        ob.require(all(name_matches(o_, allowed) for o_ in owner_paths(prog, b)) or name_matches(b.path, allowed), f"{adt}/constructed-in/{own}",
                    f"{adt} is constructed in {b.path}, outside {allowed}", construct=b.path, where=b.loc(bb))
     ob.floor(sites, floor, f"construction sites of {adt}")
     return sites
@@ -1206,6 +1233,7 @@ def panic_sites(prog, entries, stop=(), extra_edges=None, crates=None):
         if b is None or (crates and b.crate not in crates):
             continue
         counts = {}
+        cand = []
         for i, bl in enumerate(b.blocks):
             if bl.get("cleanup"):
                 continue
@@ -1226,9 +1254,12 @@ def panic_sites(prog, entries, stop=(), extra_edges=None, crates=None):
                 continue
             if in_ignored_expansion(b, i) and what.startswith("call:fmt"):
                 continue
+            cand.append((1 if (t.get("exp") or "").split("::")[-1] == "select!" else 0, t.get("line") or 0, i, what, t.get("exp")))
+        # ordinals: in source order, macro-generated (select!) sites last - stable when code is moved within / inlined into the body
+        for sel_, line_, i, what, exp_ in sorted(cand):
             n = counts.get(what, 0)
             counts[what] = n + 1
-            sites.append({"body": p, "bb": i, "what": what, "ord": n, "key": f"{p}/{what}#{n}", "exp": t.get("exp"), "via": reach.get(p)})
+            sites.append({"body": p, "bb": i, "what": what, "ord": n, "key": f"{p}/{what}#{n}", "exp": exp_, "via": reach.get(p)})
     return reach, sites
 
 
